@@ -1,5 +1,6 @@
 import InTotoModel.Driver.RulesProto
 import InTotoModel.Model.Verify
+import InTotoModel.Spec.Verify
 /-
   End-to-end verification scenarios on the line protocol (see harness/src/e2e.rs for the writer):
 
@@ -198,7 +199,16 @@ def runVerify (toks : List String) : String :=
         | .panic s => s!"panic {s}"
       -- (delegated evidence is visited in layout order and key-id order: the sequence of inspection
       -- commands is determined, in failing runs too, and compared as a sequence)
-      (if missing then "model-ran-an-inspection-the-implementation-did-not " else "") ++ head ++ " " ++ showEvents ev
+      -- the specification's verdict (`Spec/Verify.lean`; proved equal to the model's success part in
+      -- `Props/Spec.lean` - evaluated here as well, so that the executable definitions are exercised)
+      let spec := InToto.VerifySpec.accepts env 64 [] b keys d (name.getD [])
+      let agrees := match res, spec with
+        | .ok l, some l' => decide (l = l')
+        | .ok _, none => false
+        | _, some _ => false
+        | _, none => true
+      (if missing then "model-ran-an-inspection-the-implementation-did-not " else "") ++
+        (if agrees then "" else "SPECIFICATION-DIFFERS ") ++ head ++ " " ++ showEvents ev
     let a := go (seqOrd idOrd)
     let b' := go (seqOrd revOrd)
     if a == b' then a else "ORDER-DEPENDENT [" ++ a ++ "] [" ++ b' ++ "]"
